@@ -2,10 +2,12 @@
   C07 — planning and un-planning are all-or-nothing.
   Stops-units: `c07_rejected_leaves_everything` (routes, cached values of every planned stop, score)
   for ARBITRARY exact checks, `c07_accepted_applies_completely`. Units of units (bookkeeping level):
-  `c07_units_rejected_unchanged` on the sub-alphabet where nested un-plans are never rejected;
-  the general statement for units of units is false of the code as modelled
-  (`c07_counterexample_nested`: `solutionPlanUnitsUnitImpl.UnPlan` keeps going after a member's
-  un-plan was rejected and returns true — the code carries a TODO).
+  `c07_units_rejected_unchanged` on the sub-alphabet `GoodOp` (since the repair of E16 it contains group un-plans with
+  any pattern of rejected member un-plans);
+  the general statement for units of units was false of the code as given
+  (`c07_counterexample_nested` on `unplanUnitsGiven`: `solutionPlanUnitsUnitImpl.UnPlan` kept going after a member's
+  un-plan was rejected and returned true — the code carried a TODO; repaired, `c07_group_unplan_all_or_nothing`) and
+  remains false for `UnPlan` called on a MEMBER (E2, listed; `c03_counterexample_member_unplan`).
 -/
 import NR.Engine
 import NR.Coll
